@@ -4,6 +4,7 @@ import ast
 from ..index import AnalysisError, attr_chain, norm, own_nodes
 from ..query import calls_in, call_name, is_value_yield
 from ..condeval import check_cond
+from .common import borrowed
 from .common import (TLSCONN, TLSREC, RECLAYER, nodes_with_call, consumes_of, dead_edge_labels,
                      must_pass, senderror_desc, rule_consume)
 from . import c01shared, c05
@@ -382,4 +383,6 @@ RULES = [
     ("C16.PHA", "quick", rule_pha),
     ("C16.DISPATCH", "quick", rule_dispatch),
     ("C16.CONSUME", "quick", rule_consume_c16),
+    # a KeyUpdate ends its record: no byte of the next message may cross the key change
+    ("C16.GETMSG", "quick", borrowed("c06", "rule_getmsg", "C06.GETMSG", "C16.GETMSG")),
 ]
